@@ -36,5 +36,6 @@ RULE = ('Direct calls of the real DollarWeightedCashBufferedOrderSizer through a
         'floor(normalised share x (1-buffer) x equity x (1-f) / price) (both neighbours accepted within 1e-9 of an '
         'integer, counted as ambiguous_boundary), hence q*p + f*alloc <= alloc < (q+1)*p + f*alloc and the whole target '
         '<= (1-buffer) x equity. Non-trivial: >= 2 assets, some non-zero weight, percentage fees; distinct = distinct input.')
+RULE += " In half of the cases the weight dict's keys are in shuffled (non-alphabetical) insertion order."
 ASSUMPTIONS = ['total fee rate <= 100% (above it every after-fee budget is negative)',
                'weights whose sum is within 1e-8 of zero are used unscaled, as the code documents']
